@@ -276,7 +276,7 @@ def inject_kani_modules(scratch_repo, files):
     # shared helper module, visible to both crates as a plain file included by path
     os.makedirs(os.path.join(scratch_repo, '.cargo'), exist_ok=True)
     with open(os.path.join(scratch_repo, '.cargo', 'config.toml'), 'w') as f:
-        f.write('[net]\noffline = true\n[patch.crates-io]\nethnum = { path = "%s" }\n' % os.path.join(ROOT, 'vendor', 'ethnum-kani'))
+        f.write('[net]\noffline = true\n[patch.crates-io]\nethnum = { path = "%s" }\nanyhow = { path = "%s" }\n' % (os.path.join(ROOT, 'vendor', 'ethnum-kani'), os.path.join(ROOT, 'vendor', 'anyhow-kani')))
     return injected, None
 
 
